@@ -83,6 +83,10 @@ def step (s : State) (j : Json) : Except String (State × Json × List Fired) :=
       | _, _ => pure ()
       if icur ≠ s.currentGroup then
         fired := fired ++ [{ name := "current_group_changed_outside_execution", detail := mkObj [("from", jn s.currentGroup), ("to", jn icur)] }]
+      -- a scheduled transition disappears only for a reason of its own (its group's creation failed or expired, its
+      -- hand-over signing failed): events about other groups or signings leave it alone
+      if s'.transition.isSome && itr == Json.null then
+        fired := fired ++ [{ name := "scheduled_transition_dropped_without_cause", detail := mkObj [("transition", trJson s'.transition)] }]
       pure (s', dump s', fired)
   | "bandtssEnd" =>
     let now ← jint j "now"
